@@ -267,6 +267,43 @@ def run(ctx):
             ctx.violation('protocol %d: %s' % (v, bad),
                           {'version': v, 'token': token, 'script': [list(map(str, s))[:3] for s in core], 'impl': got[:200]},
                           key={'version': v, 'token': token, 'script': [s[0] + (':' + str(s[1]) if len(s) > 1 else '') for s in core]})
+    # ---- the server rejects the connection before reading anything: disconnect packet readable while the
+    # client's own first writes fail (peer closed) -- the message must still surface
+    import re as _re
+    for trial in range(ctx.scale(22, 120)):
+        v = versions[trial % len(versions)]
+        msg = MSGS[trial % len(MSGS)]
+        cx = C.ConnectionContext(protocol_version=v)
+        cfg = {'version': v, 'script': [], 'early_disconnect': msg}
+        if sb.login.LoginStartPacket.get_id(cx) != 0:
+            cfg['login_ids'] = dict(disconnect=cb.login.DisconnectPacket.get_id(cx))
+        excs = []
+        with simnet.Net(lambda s_: RefServer(s_, cfg)) as net:
+            conn = C.Connection('h', 1, username='u', allowed_versions={v}, handle_exception=lambda e, i: excs.append(e))
+            try:
+                conn.connect()
+                net.run_threads()
+            except Exception as e:
+                excs.append(e)
+        ctx.case(('early-disconnect', v, msg))
+        ctx.count('early-disconnect')
+        try:
+            t = json.loads(msg)['text']
+        except (ValueError, TypeError, KeyError):
+            t = msg
+        if not isinstance(t, str):
+            t = msg
+        m = _re.match(r"Outdated (client! Please use|server! I'm still on) (\S+)$", t)
+        bad = None
+        if not excs:
+            bad = 'silent exit'
+        elif m and not (isinstance(excs[-1], VersionMismatch) and excs[-1].server_version == m.group(2)):
+            bad = "'outdated' message surfaced as %r" % (excs[-1],)
+        elif not m and not (type(excs[-1]) is LoginDisconnect and t in str(excs[-1])):
+            bad = 'message %r surfaced as %r' % (t, excs[-1])
+        if bad:
+            ctx.violation('protocol %d: server sends a login disconnect and closes before reading the handshake: %s' % (v, bad),
+                          {'version': v, 'message': msg}, key={'kind': 'early-disconnect', 'version': v, 'message': msg})
     # ---- two logins on ONE Connection: the first ends in a login disconnect whose exception handler
     # reconnects (the documented auto-reconnect pattern); nothing negotiated in session 1 may apply to
     # session 2 before session 2's own announcements
